@@ -40,7 +40,22 @@ func (c18Res) RowsAffected() (int64, error) { return 1, nil }
 
 func (d *c18Driver) Open(string) (driver.Conn, error) { return &c18Conn{d.s}, nil }
 func (c *c18Conn) Prepare(q string) (driver.Stmt, error) {
-	return nil, errors.New("prepare unsupported")
+	return &c18Stmt{c.s, q}, nil // reached only by handles opened with gorm.Config{PrepareStmt: true}
+}
+
+type c18Stmt struct {
+	s *c18Script
+	q string
+}
+
+func (st *c18Stmt) Close() error  { return nil }
+func (st *c18Stmt) NumInput() int { return -1 }
+func (st *c18Stmt) Exec(args []driver.Value) (driver.Result, error) {
+	st.s.add("EXEC " + st.q)
+	return c18Res{}, nil
+}
+func (st *c18Stmt) Query(args []driver.Value) (driver.Rows, error) {
+	return nil, errors.New("query unsupported")
 }
 func (c *c18Conn) Close() error { return nil }
 func (c *c18Conn) Begin() (driver.Tx, error) {
@@ -79,12 +94,16 @@ type c18KeyT struct{}
 
 // c18DB is one gorm handle over its own recording fake driver (one pooled connection).
 type c18DB struct {
-	s   *c18Script
-	db  *gorm.DB
-	sdb *sql.DB
+	s       *c18Script
+	db      *gorm.DB
+	sdb     *sql.DB
+	prepare bool // opened with gorm.Config{PrepareStmt: true}
+	stale   bool // Transact is given a handle that already carries an error
 }
 
-func c18NewDB() *c18DB {
+func c18NewDB() *c18DB { return c18NewDBOpt(false) }
+
+func c18NewDBOpt(prepareStmt bool) *c18DB {
 	s := &c18Script{}
 	c18DrvSeq++
 	name := fmt.Sprintf("c18fake%d", c18DrvSeq)
@@ -94,18 +113,18 @@ func c18NewDB() *c18DB {
 		panic(err)
 	}
 	sdb.SetMaxOpenConns(1)
-	db, err := gorm.Open(mysql.New(mysql.Config{Conn: sdb, SkipInitializeWithVersion: true}), &gorm.Config{Logger: logger.Discard, SkipDefaultTransaction: true})
+	db, err := gorm.Open(mysql.New(mysql.Config{Conn: sdb, SkipInitializeWithVersion: true}), &gorm.Config{Logger: logger.Discard, SkipDefaultTransaction: true, PrepareStmt: prepareStmt})
 	if err != nil {
 		panic(err)
 	}
-	return &c18DB{s: s, db: db, sdb: sdb}
+	return &c18DB{s: s, db: db, sdb: sdb, prepare: prepareStmt}
 }
 
 // c18StepFn is the i-th step; what it does is read from the script carried by the transaction's context, so that
 // one (shared) step function - and one shared Combine of such functions - serves every transaction.
 // kinds: 0 ok, 1 plain error, 2 panic, 3 error wrapping context.Canceled, 4 error wrapping context.DeadlineExceeded,
 // 5 the step rolls the transaction back itself and returns nil (generated as the last step only),
-// 6 panic(nil), 7 runtime.Goexit().
+// 6 panic(nil), 7 runtime.Goexit(), 8 nested Transact whose failure the step returns, 9 nested Transact whose failure the step ignores.
 func c18StepFn(i int) gormx.GormProcFn {
 	return func(txn *gorm.DB) error {
 		steps, _ := txn.Statement.Context.Value(c18KeyT{}).([]int)
@@ -133,9 +152,23 @@ func c18StepFn(i int) gormx.GormProcFn {
 			panic(nil) // recover() returns nil for it under the module's go 1.19 semantics
 		case 7:
 			runtime.Goexit() // e.g. t.FailNow() inside a step: deferred calls run, recover() returns nil
+		case 8:
+			// a nested Transact on the handle the step was given: gorm cannot begin inside a transaction, the inner
+			// call fails without running its step and must leave the outer transaction alone; the step reports it
+			if e := gormx.Transact(txn, c18InnerStep); e != nil {
+				return fmt.Errorf("step-error-%d: %w", i, e)
+			}
+			return nil
+		case 9:
+			_ = gormx.Transact(txn, c18InnerStep) // the same, but the step ignores the inner failure and succeeds
 		}
 		return nil
 	}
+}
+
+// the step of a nested Transact: never runs on the unchanged code (an "EXEC inner" event is one the model never produces)
+func c18InnerStep(txn *gorm.DB) error {
+	return txn.Exec("inner").Error
 }
 
 var c18SharedFns = func() []gormx.GormProcFn {
@@ -166,6 +199,9 @@ func (d *c18DB) runB(beginOK, badConn, commitOK, rollbackOK bool, steps []int, c
 	d.s.events = nil
 	d.s.mu.Unlock()
 	db := d.db.WithContext(context.WithValue(context.Background(), c18KeyT{}, steps))
+	if d.stale {
+		_ = db.AddError(errors.New("stale-handle")) // e.g. the handle is the result of an earlier failed call
+	}
 	var rerr error
 	var outerPanic interface{}
 	returned := false
@@ -210,7 +246,8 @@ func (d *c18DB) runB(beginOK, badConn, commitOK, rollbackOK bool, steps []int, c
 		// Transact returned but the transaction still holds its connection: it was never finished.
 		// Record it and continue on a fresh handle (the leaked one would block every later Begin).
 		events = append(events, "TX-LEFT-OPEN")
-		fresh := c18NewDBLocked()
+		fresh := c18NewDBLockedOpt(d.prepare)
+		fresh.stale = d.stale
 		*d = *fresh
 	}
 	return events, result
@@ -274,9 +311,9 @@ func c18CoqSteps(steps []int) string {
 	ss := make([]string, len(steps))
 	for i, k := range steps {
 		switch k {
-		case 0:
+		case 0, 9:
 			ss[i] = "SOk"
-		case 1, 3, 4:
+		case 1, 3, 4, 8:
 			ss[i] = fmt.Sprintf("SFail %d", i)
 		case 2:
 			ss[i] = fmt.Sprintf("SPanic %d", i)
@@ -292,10 +329,23 @@ func c18CoqSteps(steps []int) string {
 }
 
 func c18Case(comb, b, c, r bool, steps []int, ev []string, res string, class string, extra map[string]interface{}) vh.Case {
+	mode := "MDirect"
+	if comb {
+		mode = "MCombined"
+	}
+	return c18CaseM(mode, b, c, r, steps, ev, res, class, extra)
+}
+
+func c18CaseM(mode string, b, c, r bool, steps []int, ev []string, res string, class string, extra map[string]interface{}) vh.Case {
+	comb := mode == "MCombined"
+	cres := c18CoqResult(res)
+	if mode == "MStale" && res == "stale-handle" {
+		cres = "RBeginErr" // the handle's own error: a failure to begin
+	}
 	coq := fmt.Sprintf("(%s, {| begin_ok := %s; commit_ok := %s; rollback_ok := %s; steps := %s |}, (%s, %s))",
-		vh.CoqBool(comb), vh.CoqBool(b), vh.CoqBool(c), vh.CoqBool(r), c18CoqSteps(steps), c18CoqEvents(ev), c18CoqResult(res))
-	desc := map[string]interface{}{"combined": comb, "begin_ok": b, "commit_ok": c, "rollback_ok": r,
-		"steps(0 ok,1 error,2 panic,3 error wrapping context.Canceled,4 wrapping DeadlineExceeded,5 step rolls back itself,6 panic(nil),7 runtime.Goexit)": steps, "events": ev, "result": res}
+		mode, vh.CoqBool(b), vh.CoqBool(c), vh.CoqBool(r), c18CoqSteps(steps), c18CoqEvents(ev), cres)
+	desc := map[string]interface{}{"mode": mode, "combined": comb, "begin_ok": b, "commit_ok": c, "rollback_ok": r,
+		"steps(0 ok,1 error,2 panic,3 error wrapping context.Canceled,4 wrapping DeadlineExceeded,5 step rolls back itself,6 panic(nil),7 runtime.Goexit,8 nested Transact failure returned,9 nested Transact failure ignored)": steps, "events": ev, "result": res}
 	for k, v := range extra {
 		desc[k] = v
 	}
@@ -365,6 +415,69 @@ func main() {
 				}
 			}
 		}
+		// nested Transact inside a step (kinds 8, 9) at every position, alone and followed by ok / failing steps
+		for n := 1; n <= maxSteps; n++ {
+			for pos := 0; pos < n; pos++ {
+				for _, k := range []int{8, 9} {
+					for _, last := range []int{0, 1, 2} {
+						st := make([]int, n)
+						st[pos] = k
+						if pos != n-1 {
+							st[n-1] = last
+						} else if last != 0 {
+							continue
+						}
+						emit(st, " nested-transact")
+					}
+				}
+			}
+		}
+		// handles opened with gorm.Config{PrepareStmt: true} (the transaction's ConnPool is gorm's PreparedStmtTX,
+		// not *sql.Tx): every outcome vector up to 3 steps, plus the special step kinds
+		{
+			keep := d
+			d = c18NewDBLockedOpt(true)
+			var recp func(prefix []int, n int)
+			recp = func(prefix []int, n int) {
+				if len(prefix) == n {
+					emit(prefix, " prepare-stmt")
+					return
+				}
+				for k := 0; k < 3; k++ {
+					recp(append(append([]int{}, prefix...), k), n)
+				}
+			}
+			for n := 0; n <= 3; n++ {
+				recp(nil, n)
+			}
+			for _, k := range []int{3, 5, 6, 7, 8, 9} {
+				emit([]int{0, k}, " prepare-stmt special")
+				emit([]int{k}, " prepare-stmt special")
+			}
+			d = keep
+		}
+		// a handle that already carries an error (defect 20): nothing may be begun, no step runs, an error comes back;
+		// default and PrepareStmt handles, every begin/commit/rollback vector, steps passed directly
+		for _, prep := range []bool{false, true} {
+			ds := c18NewDBLockedOpt(prep)
+			ds.stale = true
+			for n := 0; n <= 3; n++ {
+				for _, k := range []int{0, 1, 2} {
+					if n == 0 && k != 0 {
+						continue
+					}
+					st := make([]int, n)
+					if n > 0 {
+						st[n-1] = k
+					}
+					for m := 0; m < 8; m++ {
+						b, c, r := m&1 != 0, m&2 != 0, m&4 != 0
+						ev, res := ds.run(b, c, r, st, false)
+						e.Emit(c18CaseM("MStale", b, c, r, st, ev, res, "stale-handle", map[string]interface{}{"prepare_stmt": prep, "handle": "carries the error \"stale-handle\" before Transact is called"}))
+					}
+				}
+			}
+		}
 		// concurrent callers sharing ONE combined step (and one set of step functions), each in its own
 		// transaction on its own database handle; every distinct (configuration, observed trace) is emitted once
 		workers, per := 8, e.Scale(25000, 150000)
@@ -431,8 +544,10 @@ func main() {
 var c18NewMu sync.Mutex
 
 // sql.Register is not safe for concurrent use
-func c18NewDBLocked() *c18DB {
+func c18NewDBLocked() *c18DB { return c18NewDBLockedOpt(false) }
+
+func c18NewDBLockedOpt(prepareStmt bool) *c18DB {
 	c18NewMu.Lock()
 	defer c18NewMu.Unlock()
-	return c18NewDB()
+	return c18NewDBOpt(prepareStmt)
 }
